@@ -395,9 +395,17 @@ func (c *Collection) Upsert(query, repl, update bsonkit.Doc, arrayFilters bsonki
 
 	// apply update if present
 	if update != nil {
+		// get id extracted from the query
+		queryID := bsonkit.Get(doc, "_id")
+
 		_, err = Apply(doc, query, update, true, arrayFilters)
 		if err != nil {
 			return nil, err
+		}
+
+		// the id fixed by the query cannot be changed by the update
+		if queryID != bsonkit.Missing && bsonkit.Compare(bsonkit.Get(doc, "_id"), queryID) != 0 {
+			return nil, fmt.Errorf("document _id is immutable")
 		}
 	}
 
